@@ -7,8 +7,11 @@ Layers (DESIGN.md §6 C17):
                   inside `touch`, public `evict_tail`/`evict_to_target`, `is_active` on reload and
                   in `for_each_entry`) — the theorems below are about this layer, for ALL histories;
 * `Model.LruPtr`  the code as written (entry array, prev/next, free list, key map, file codec) —
-                  executable, tied to `LruSeq` and to the Rust on every run (correspondence leg),
-                  codec round trip proved here; its refinement proof to `LruSeq` is not done.
+                  executable, tied to the Rust on every run (correspondence leg); PROVED to refine
+                  `LruSeq` (representation invariant + forward simulation, `Proofs/LruRefine`) for
+                  every history that does not read a checkpoint back (`ptr_*` theorems at the end of
+                  this file); `load_from_disk` / `run_cycle` at pointer level stay differential
+                  (driver runs both layers side by side); codec round trip proved.
 
 Both models are of the code AFTER the two `fix:` commits recorded in KNOWN_FINDINGS.txt
 (`evict_tail` gives its slot back; `checkpoint_to_disk` never deletes the file it just wrote).
@@ -17,12 +20,14 @@ stated, refuted by a kernel-checked witness, and proved under the explicit hypot
 -/
 import Cascette.Proofs.Lru
 import Cascette.Proofs.LruPtr
+import Cascette.Proofs.LruRefine
 namespace Cascette.Props.C17
 open Cascette
 open Cascette.Spec.Lru
 open Cascette.Model
 open Cascette.Model.LruSeq (Seq)
 open Cascette.Proofs.Lru
+open Cascette.Proofs.LruRefine
 
 variable {κ : Type} [DecidableEq κ]
 
@@ -183,5 +188,127 @@ example : (LruSeq.run 0 (Seq.init 2) ([.touch 1, .touch 2, .evictTo 2 1, .touch 
 /-- the pinned tree's defect, as a test on the fixed model: capacity 4, fill, evict 4, touch. -/
 example : (LruSeq.run 0 (Seq.init 4) ([.touch 1, .touch 2, .touch 3, .touch 4, .evictTo 4 1, .touch 5] :
     List (Op Nat))).2.getLast? = some (.bool true) := by decide
+
+/-! ## the pointer layer (the code as written) -/
+
+/-- histories of the in-memory operations and the write side of persistence: everything except
+reading a checkpoint back (`load_from_disk`, `run_cycle`). -/
+def NoReload (ops : List (Op LruPtr.Key)) : Prop := ∀ op ∈ ops, isReload op = false
+
+/-- REFINEMENT pointer layer → sequence layer, all histories without a reload, all keys (the
+all-zero key included), every capacity that fits the `u32` field, every hash function: the
+entry-array / prev / next / free-list / key-map code NEVER indexes out of range and NEVER
+exhausts the fuel of its two `while` loops (`run = some …`), returns exactly the results of the
+sequence model, and ends in a state satisfying the representation invariant `Rep` whose
+abstraction (keys of the linked slots tail → head, `free_list.len()`, generations) is the
+sequence model's state; `for_each_entry`, `len`, `contains` agree. -/
+theorem ptr_refines_seq (md5 : Bytes → Bytes) (cap : Nat) (hcap : cap ≤ LruPtr.SENT)
+    (ops : List (Op LruPtr.Key)) (hops : NoReload ops) :
+    ∃ s, LruPtr.run md5 (LruPtr.Ptr.init cap) ops =
+          some (s, (LruSeq.run LruPtr.zeroKey (Seq.init cap) ops).2) ∧
+      let q := (LruSeq.run LruPtr.zeroKey (Seq.init cap) ops).1
+      (∃ L, Rep s L ∧ s.slots = some L ∧ q.order = L.map (keyAt s.entries)) ∧
+      s.freeList.length = q.free ∧ s.gen = q.gen ∧ s.prev = q.prev ∧
+      LruPtr.iter s = some (q.iter LruPtr.zeroKey) ∧ LruPtr.len s = q.len ∧
+      ∀ k, LruPtr.contains s k = q.contains k := by
+  obtain ⟨s, hrun, hsim⟩ := run_sim md5 ops _ _ (sim_init cap hcap []) hops
+  refine ⟨s, hrun, ?_, ?_, ?_, ?_, iter_sim hsim, len_sim hsim, contains_sim hsim⟩
+  · obtain ⟨L, hr, ho, _⟩ := hsim
+    exact ⟨L, hr, (slots_rep hr).1, ho⟩
+  · obtain ⟨L, hr, ho, hf, hc, hg, hp⟩ := hsim; exact hf.symm
+  · obtain ⟨L, hr, ho, hf, hc, hg, hp⟩ := hsim; exact hg.symm
+  · obtain ⟨L, hr, ho, hf, hc, hg, hp⟩ := hsim; exact hp.symm
+
+/-- `len_le_cap` and `no_capacity_loss` for the code as written: after any history without a
+reload the run has not panicked, `len() ≤ capacity`, `len() + free_list.len() = capacity` (so an
+empty free list means really full), the array still has `capacity` entries, and linked slots ++
+free list is a permutation of `0..capacity` (no slot lost, none twice). -/
+theorem ptr_no_capacity_loss (md5 : Bytes → Bytes) (cap : Nat) (hcap : cap ≤ LruPtr.SENT)
+    (ops : List (Op LruPtr.Key)) (hops : NoReload ops) :
+    ∃ s outs, LruPtr.run md5 (LruPtr.Ptr.init cap) ops = some (s, outs) ∧
+      LruPtr.len s ≤ cap ∧ LruPtr.len s + s.freeList.length = cap ∧
+      (s.freeList = [] ↔ LruPtr.len s = cap) ∧ s.entries.length = cap ∧
+      ∃ L, s.slots = some L ∧ (L ++ s.freeList).Perm (List.range cap) := by
+  obtain ⟨s, hrun, hsim⟩ := run_sim md5 ops _ _ (sim_init cap hcap []) hops
+  have hc : s.cap = cap := by
+    obtain ⟨L, hr, ho, hf, hc, _⟩ := hsim
+    rw [← hc, run_cap]; rfl
+  obtain ⟨h1, h2⟩ := sim_slots hsim
+  rw [hc] at h1 h2
+  obtain ⟨L, hr, _⟩ := hsim
+  refine ⟨s, _, hrun, by omega, h1, ?_, h2, L, (slots_rep hr).1, hc ▸ hr.slots⟩
+  rw [← List.length_eq_zero_iff]; omega
+
+/-- `touch_present_mru` for the code as written: after any history without a reload, touching
+any key (capacity ≥ 1) does not panic, returns `true`, the key is contained, and the entry at
+`mru_head` carries it. -/
+theorem ptr_touch_present_mru (md5 : Bytes → Bytes) (cap : Nat) (hcap : cap ≤ LruPtr.SENT) (hpos : 0 < cap)
+    (ops : List (Op LruPtr.Key)) (hops : NoReload ops) (k : LruPtr.Key) :
+    ∃ s outs s', LruPtr.run md5 (LruPtr.Ptr.init cap) ops = some (s, outs) ∧
+      LruPtr.touch s k = some (s', true) ∧ LruPtr.contains s' k = true ∧
+      ∃ e, s'.entries[s'.header.head]? = some e ∧ e.ekey = k := by
+  obtain ⟨s, hrun, hsim⟩ := run_sim md5 ops _ _ (sim_init cap hcap []) hops
+  obtain ⟨s', ht, hsim'⟩ := touch_sim s _ k hsim
+  have hinv := run_inv LruPtr.zeroKey ops (inv_init (κ := LruPtr.Key) cap)
+  have hc : 0 < (LruSeq.run LruPtr.zeroKey (Seq.init cap) ops).1.cap := by rw [run_cap]; exact hpos
+  obtain ⟨h1, h2, h3⟩ := Proofs.Lru.touch_present_mru k hinv hc
+  rw [h1] at ht
+  refine ⟨s, _, s', hrun, ht, ?_, ?_⟩
+  · rw [contains_sim hsim' k]; simp [Seq.contains, h2]
+  · obtain ⟨L, hr, ho, _⟩ := hsim'
+    rw [ho, List.getLast?_map] at h3
+    cases hl : L.getLast? with
+    | none => rw [hl] at h3; cases h3
+    | some i =>
+      rw [hl] at h3
+      have hk : keyAt s'.entries i = k := Option.some.inj h3
+      have hi : i ∈ L := List.mem_of_getLast? hl
+      have hhead : s'.header.head = i := by
+        rw [hr.list.head, List.getLastD_eq_getLast?, hl]; rfl
+      have hlt := hr.ltL hi
+      refine ⟨s'.entries[i], by rw [hhead]; exact List.getElem?_eq_getElem hlt, ?_⟩
+      rw [← keyAt_of (List.getElem?_eq_getElem hlt)]; exact hk
+
+/-- C17's main clause for the code as written, any keys: through every history without a reload
+the pointer-level manager returns the textbook LRU's results, holds the textbook LRU's keys
+(`len`, `contains`), and `for_each_entry` reports the textbook recency order minus the all-zero
+key (`is_active` — the recorded finding `lru-zero-key-iter`). -/
+theorem ptr_refines_textbook_no_reload (md5 : Bytes → Bytes) (cap : Nat) (hcap : cap ≤ LruPtr.SENT)
+    (ops : List (Op LruPtr.Key)) (hops : NoReload ops) :
+    let t := Spec.Lru.run (Store.init cap) ops
+    ∃ s, LruPtr.run md5 (LruPtr.Ptr.init cap) ops = some (s, t.2) ∧
+      LruPtr.iter s = some (t.1.order.filter (fun k => k ≠ LruPtr.zeroKey)) ∧
+      LruPtr.len s = t.1.len ∧ ∀ k, LruPtr.contains s k = t.1.contains k := by
+  obtain ⟨s, hrun, _, _, _, _, hiter, hlen, hcont⟩ := ptr_refines_seq md5 cap hcap ops hops
+  obtain ⟨h1, _, h3, h4, h5⟩ := lru_refines_textbook_no_reload LruPtr.zeroKey cap ops hops
+  refine ⟨s, by rw [hrun, h1], by rw [hiter, h5], by rw [hlen, h3], fun k => by rw [hcont, h4]⟩
+
+/-- … and when the history never touches the all-zero key, `for_each_entry` reports exactly the
+textbook recency order. -/
+theorem ptr_refines_textbook_partial (md5 : Bytes → Bytes) (cap : Nat) (hcap : cap ≤ LruPtr.SENT)
+    (ops : List (Op LruPtr.Key)) (hops : NoReload ops) (hz : Op.touch LruPtr.zeroKey ∉ ops) :
+    let t := Spec.Lru.run (Store.init cap) ops
+    ∃ s, LruPtr.run md5 (LruPtr.Ptr.init cap) ops = some (s, t.2) ∧
+      LruPtr.iter s = some t.1.order ∧ LruPtr.len s = t.1.len ∧
+      ∀ k, LruPtr.contains s k = t.1.contains k := by
+  obtain ⟨s, hrun, _, _, _, _, hiter, hlen, hcont⟩ := ptr_refines_seq md5 cap hcap ops hops
+  obtain ⟨h1, _, h3, h4, h5⟩ := lru_refines_textbook_partial LruPtr.zeroKey cap ops hz
+  refine ⟨s, by rw [hrun, h1], by rw [hiter, h3], by rw [hlen, h4], fun k => by rw [hcont, h5]⟩
+
+/-- hypotheses of the pointer-layer theorems are satisfiable by a non-trivial history (fill past
+capacity, public evictions, refill, remove, reset, reopen, the zero key, a checkpoint), and the
+pointer model run on it — a test. -/
+example : (4 : Nat) ≤ LruPtr.SENT ∧ NoReload ([.touch [1], .touch LruPtr.zeroKey, .touch [3], .touch [4], .touch [5],
+    .evictTo 2 1, .touch [1], .remove [5], .evictTail, .bump, .checkpoint, .touch [6], .reset, .touch [7], .reopen] :
+    List (Op LruPtr.Key)) := by
+  refine ⟨by decide, ?_⟩
+  intro op hop
+  simp only [List.mem_cons, List.not_mem_nil, or_false] at hop
+  rcases hop with h | h | h | h | h | h | h | h | h | h | h | h | h | h | h <;> subst h <;> rfl
+
+example : (LruPtr.run (fun _ => LruPtr.zeros16) (LruPtr.Ptr.init 2)
+    [.touch [1], .touch [2], .touch [3], .evictTail, .touch [1], .remove [3]]).map
+      (fun r => (r.2, r.1.slots, r.1.freeList)) =
+    some ([.bool true, .bool true, .bool true, .bool true, .bool true, .bool true], some [0], [1]) := by decide
 
 end Cascette.Props.C17
